@@ -24,7 +24,7 @@ CHECKS = {
                 "(random / sticky / PCT). Oracles: porcupine linearizability of point operations, deletes and the final walk "
                 "against the prefix-free map model; present-throughout / absent-throughout windows for queries and walks; "
                 "simulator-detected deadlock; panics; data races via the race detector inside the serialised run. "
-                "Non-trivial: >= 2 tasks and >= 3 operations.",
+                "Non-trivial: >= 2 tasks and >= 3 operations. Sorted walks (WalkSorted) take part in the concurrent workloads: window clauses as for Walk plus lexicographic order.",
         "real": ["ctree (instrumented)"],
         "stub": [],
         "assumptions": ["porcupine histories are capped at ~40 operations; Unknown (timeout) is counted inconclusive"],
@@ -157,7 +157,7 @@ CHECKS["C13"] = {
             "the manager only for a cause (a Remove/Reconnect call for that target under way, or a silence of the receive timeout in force), silence after Remove "
             "returned, refused calls, Remove returns (quiescence = deadlock oracle), retries never stop, a stream that fell silent under a positive "
             "effective receive timeout (per-target override, else the manager's) is always timed out, back-off gap <= RetryMaxDelay, no "
-            "goroutine left after removing everything. Non-trivial: at least one callback and one manager call.",
+            "goroutine left after removing everything. Non-trivial: at least one callback and one manager call. 30% of the targets have a second next-hop address on another scripted server (the manager tries a target's addresses in turn within one attempt).",
     "real": ["manager, connection (instrumented)", "generated gNMI client and server stubs", "cenkalti/backoff", "protobuf runtime"],
     "stub": ["gRPC transport and dialling (simgrpc)", "target endpoints (scripted by the harness)", "glog"],
     "assumptions": ["backoff jitter is disabled (RetryRandomization = 0) so that retry delays are a function of the tape"],
@@ -199,7 +199,7 @@ CHECKS["C20"] = {
             "scheduler. Oracles on what was handed to Send: reproducibility (the two sequences are identical), non-decreasing timestamps, "
             "repeat counts, value ranges and delta steps, timestamp steps, sync after the first emission of every value, target stamping, "
             "virtual inter-message gaps equal timestamp gaps with delays on. POLL runs may replace the configuration (SetConfig) before the "
-            "first poll trigger; later passes are judged against the new one. Non-trivial: >= 2 messages.",
+            "first poll trigger; later passes are judged against the new one. Non-trivial: >= 2 messages. A fifth of the runs use fixed-responses configurations (played verbatim, each response once, then the sync marker; two engines built from one configuration object, as the fake agent does per Subscribe call).",
     "real": ["testing/fake/gnmi (Client engine), testing/fake/queue (instrumented)", "generated gNMI stubs", "protobuf runtime"],
     "stub": ["gRPC transport (simgrpc stream)"],
     "assumptions": ["numeric ranges far below 2^62 (the generator's Int63n(max-min+1) overflows beyond; an arithmetic limit of the test fake)",
@@ -220,7 +220,7 @@ CHECKS["C01"] = {
             "horizon the client view must equal the reference model's replay of the target's last stream as the collector files it (target "
             "name forced, empty origin promoted to openconfig); then cli.QueryDisplay ONCE in single / proto / group display, and the "
             "shipped gnmi_cli Subscribe branch invoked with query flags, inline -proto and -proto_file must print the same leaves. "
-            "Non-trivial: every run.",
+            "Non-trivial: every run. Also: the same subscription through the CLI's POLL (count 2) and STREAM (bounded duration) modes in group display; a partial subscription (one keyed subtree of the target with its origin) handed to the shipped gnmi_cli in four equivalent forms (query flags with bracketed keys, inline proto with the origin in the path, proto file with the origin in the prefix, inline proto with the origin as first element); in a fifth of the runs a scripted target holds a long list of new leaves back until the client is about to subscribe and then sends it back to back, so that the initial walk and the stream overlap.",
     "real": ["cmd/gnmi_collector and cmd/gnmi_cli (re-packaged main packages: runCollector, executeSubscribe, flag handling)", "manager, connection, cache, subscribe, match, coalesce, ctree, client, client/gnmi, cli, path, value, testing/fake/gnmi (instrumented)", "generated stubs, protobuf, prototext, txtpbfmt, ygot path parsing, backoff, TLS key-pair loading"],
     "stub": ["gRPC transport, dialling and listeners (simgrpc/simnet)", "grpctunnel dialer (constructed, never dialled)", "glog", "OS signals, flag.Parse on a real argv"],
     "assumptions": ["atomic notifications and origins carried in the update path are not generated (the client library flattens atomic containers; the collector files path origins under the promoted prefix origin)",
@@ -238,7 +238,7 @@ CHECKS["C12"] = {
             "directly into cache.GnmiUpdate mixed with ordinary traffic, lifecycle calls and metadata refreshes, (iii) by hostile clients to "
             "the Subscribe server, (iv) by a hostile server to client/gnmi and cli.QueryDisplay in every display mode; always across a real "
             "marshal/unmarshal. Every task of the system is wrapped: a panic whose stack is in repository code is a violation with the "
-            "function and panic class as signature; a rejected message must leave stored data intact. Non-trivial: >= 2 messages.",
+            "function and panic class as signature; a rejected message must leave stored data intact. Non-trivial: >= 2 messages. A race build runs as well: a data race whose racing access is a Go map operation is reported as C12/fatal-concurrent-map-access (the runtime aborts the process on concurrent map access; recover cannot stop it). Hostile clients include ones that open the RPC and half-close or go away without sending a request.",
     "real": ["cache, value, ctree, path, subscribe, manager, client/gnmi, client, cli, cmd/gnmi_collector (instrumented)"],
     "stub": ["gRPC transport (simgrpc)", "glog (messages are still formatted)"],
     "assumptions": ["byte-level fuzzing of the wire format is a different technique and not done (DESIGN.md 12 A6)"],
@@ -364,7 +364,9 @@ LEVELS = {
         "text": "2..4 targets with overlapping paths, one concurrent stream task per target issuing updates and lifecycle calls under the seeded "
                 "scheduler; per-target models (isolation is the oracle: any cross-target effect makes a target disagree with the model of its "
                 "own stream), announced deletes must cover what was stored, metadata back to initial after Reset, Remove makes the target "
-                "unknown and is announced. Stream termination on Remove is checked by the subscribe harness. Evidence, not proof.",
+                "unknown and is announced. Stream termination on Remove is checked by the subscribe harness. In a second phase Reset tasks are raced "
+                "against Remove / Add of the same targets, and a Remove is raced against a second goroutine that re-adds the target the moment it "
+                "is gone (with a stall fault at the clock seam inside Remove); the change feed must still reproduce the cache. Evidence, not proof.",
         "design_ref": "7 C14", "note": _CACHE_NOTE,
         "technique": "deterministic simulation: seeded scheduler over per-target stream tasks + per-target reference models",
     },
@@ -372,7 +374,9 @@ LEVELS = {
         "text": "Lifecycle-heavy histories with UpdateMetadata/UpdateSize refresh tasks interleaved by the seeded scheduler; invariants "
                 "targetLeaves == stored non-metadata leaves == added - deleted after every operation, counter deltas of every update operation "
                 "against the model's classification, latestTimestamp after a final refresh, and the in-simulation race detector on the same runs. "
-                "Latency windows are checked by the latency sub-scenarios. Evidence, not proof.",
+                "Latency windows are checked by the latency sub-scenarios (samples include zero and negative latencies); what the cache feeds into "
+                "the latency statistics is judged at cache level (every exported minimum / maximum is the latency of some update accepted while "
+                "the target was synced). Evidence, not proof.",
         "design_ref": "7 C15", "note": _CACHE_NOTE + " Counter deltas are only lower-bounded while a refresh task runs concurrently (its own metadata updates pass through the same counters).",
         "technique": "deterministic simulation: seeded scheduler + conservation-law oracles + in-simulation race detection",
     },
